@@ -9,7 +9,7 @@ E2 = "stateless exploration of all schedules of the real goroutines within a dev
 # id -> (engine, category, technique, level text, level note, design ref)
 CHECKS = {
  "C01": ("seq", "model_checking", "explicit-state BFS + exhaustive families vs reference move generator",
-   "Every node of BFS closures from ~45 tagged seeds and of completely enumerated families (all K+X v K placements, castling under every single attacker, e.p. x king x slider, promotion fronts, collinear pins) has its legal-move set and move metadata compared with an independent mailbox move generator that is itself anchored to published perft counts; implementation perft is compared with the published counts too. At the engine's door (Engine.Move with text) every origin/destination pair of a legal move with every promotion suffix is accepted exactly when legal, and then leads to the reference successor (promotion, corner and en-passant families).",
+   "Every node of BFS closures from ~45 tagged seeds and of completely enumerated families (all K+X v K placements, castling under every single attacker, e.p. x king x slider, promotion fronts, collinear pins) has its legal-move set and move metadata compared with an independent mailbox move generator that is itself anchored to published perft counts; implementation perft is compared with the published counts too. At the engine's door (Engine.Move with text) every origin/destination pair of a legal move with every promotion suffix is accepted exactly when legal, and then leads to the reference successor (promotion, corner and en-passant families). The engine's door is also tried late in long games (every legal two-move line from roots with the half-move clock at 98..149).",
    "Trusts the reference generator (validated against published perft numbers in every run) and the bounds: BFS depth, family definitions.", "DESIGN.md §5 C01"),
  "C02": ("seq", "model_checking", "explicit-state BFS over (position, move) pairs vs reference successor",
    "Every (node, legal move) pair of the C01 spaces: successor placement/rights/e.p. equals the reference Make, all redundant views (square lookup, piece/colour/occupancy sets, rotated boards, attack queries for 2x64 squares) agree, FEN agrees, parent value untouched. Chains are covered because every BFS node was produced by the implementation's own Move. Six odd placements the decoder accepts although no game reaches them (several kings of one colour, none, a board full of queens) and every successor to depth 2 the implementation produces from them: all views must be self-consistent there too.",
@@ -21,10 +21,10 @@ CHECKS.update({
    "The table half of the property is decided completely: every occupancy subset of every line through every square (own square empty and occupied, off-line cross-talk squares added) goes through the public attack-board functions and is compared with a ray walk. The derived queries are compared with their geometric definitions on every node of the BFS closures, the pin/castling/back-rank families and a two-queens family (286 000 positions with two queens of one colour: several targets for one pin query).",
    "Queen: the two halves are enumerated completely and jointly for the 12 nearest squares (QueenAttackboard is the union of the two look-ups); derived queries are bounded by the BFS depth.", "DESIGN.md §5 C06"),
  "C07": ("seq", "model_checking", "explicit-state BFS + all push/pop histories; complete key-table probe",
-   "For 5 table seeds: incremental == from-scratch hash on every (node, move) of the BFS closures and families and after every push and every pop of all push sequences to depth n on game boards; the position->hash map over everything visited is a function and injective; every key of the table (read through Hash) is non-zero and pairwise distinct, so no single-component difference can cancel.",
+   "For 5 table seeds: incremental == from-scratch hash on every (node, move) of the BFS closures and families and after every push and every pop of all push sequences to depth n on game boards; the position->hash map over everything visited is a function and injective; every key of the table (read through Hash) is non-zero and pairwise distinct, so no single-component difference can cancel. The key-table probe is swept over ~450 special seeds (powers of two, extremes, well-known mixing constants with negations and complements).",
    "Bounded by BFS depth / history length; 2^-64 coincidences ignored as the property allows.", "DESIGN.md §5 C07"),
  "C09": ("seq", "model_checking", "complete enumeration of pairs and triples over a score alphabet closed under the score operations; all 2^32 floats for unary laws",
-   "All pairs and triples over won, lost, every mate distance an int8 can hold and ~40 boundary floats - the set closed breadth-first under the score-producing operations Negate / IncrementMateDistance / DecrementMateDistance, values kept apart structurally - are checked against a rank-tuple model: agreement with the stated order, trichotomy, transitivity, negation involutive and order-reversing, one more ply order-preserving, Max/Min. Thorough also walks every non-NaN float32 payload through the unary and neighbour laws.",
+   "All pairs and triples over won, lost, every mate distance an int8 can hold and ~40 boundary floats - the set closed breadth-first under the score-producing operations Negate / IncrementMateDistance / DecrementMateDistance, values kept apart structurally - are checked against a rank-tuple model: agreement with the stated order, trichotomy, transitivity, negation involutive and order-reversing, one more ply order-preserving, Max/Min. Thorough also walks every non-NaN float32 payload through the unary and neighbour laws. The heuristic alphabet includes round numbers and integer widths (127 .. 10^6) with mate distances added and subtracted.",
    "NaN and the Invalid score are not constructible scores. The int8 wrap-around at |k|=127/128 is a recorded known finding.", "DESIGN.md §5 C09"),
 })
 
@@ -36,31 +36,31 @@ CHECKS.update({
 
 CHECKS.update({
  "C08": ("seq", "model_checking", "exhaustive enumeration of operation words {push,pop,fork,switch} on real boards vs multi-board model",
-   "Every word of <= 8 (thorough 10) operations over push (root alphabets with castling, e.p., promotions, captures, shuffles), pop (never below a fork point), fork (<= 3 live boards) and switch is replayed on fresh real boards; after the last operation every live board's getters are compared with a reference multi-board model, the hash with the scratch hash, and after a push the C05 draw oracle runs on that board, so repetition against the common past is checked on both sides of a fork. The boards an engine hands out (Engine.Board) on seven games incl. drawn ones are independent of its game in both directions.",
+   "Every word of <= 8 (thorough 10) operations over push (root alphabets with castling, e.p., promotions, captures, shuffles), pop (never below a fork point), fork (<= 3 live boards) and switch is replayed on fresh real boards; after the last operation every live board's getters are compared with a reference multi-board model, the hash with the scratch hash, and after a push the C05 draw oracle runs on that board, so repetition against the common past is checked on both sides of a fork. The boards an engine hands out (Engine.Board) on seven games incl. drawn ones are independent of its game in both directions. A long-lived board: after a complete 4-ply walk (200 000 pushes from the start position, 4 million from a middlegame root) everything reported is unchanged and the game goes on into a repetition that must be seen; roots set up with full-move number 0 and with a degenerate hash table.",
    "Bounded by word length, alphabets and 3 live boards. Taking back below a fork point is excluded as the property says.", "DESIGN.md §5 C08"),
  "C14": ("seq", "model_checking", "explicit-state BFS x clock grid for the codec; exhaustive Move/TakeBack histories through the engine",
-   "Every BFS node and family position x 7x7 clock values x both sides round-trips through Decode/Encode in both directions (string and value identity), and the FEN the engine reports is compared with the reference game's FEN after every Move and TakeBack of all histories to depth n from roots with castling, e.p., promotions and carried-in clocks, and for the engine set up on 4 positions x both sides x 10 half-move clocks x 7 full-move numbers (reports what it was given, the standard FEN after one move, the given FEN after the take-back).",
+   "Every BFS node and family position x 7x7 clock values x both sides round-trips through Decode/Encode in both directions (string and value identity), and the FEN the engine reports is compared with the reference game's FEN after every Move and TakeBack of all histories to depth n from roots with castling, e.p., promotions and carried-in clocks, and for the engine set up on 4 positions x both sides x 10 half-move clocks x 7 full-move numbers (reports what it was given, the standard FEN after one move, the given FEN after the take-back). Sequences of moves and take-backs are also observed sparsely (the FEN asked for only once before and once after); clocks around every integer width.",
    "Bounded by BFS depth, clock grid and history depth.", "DESIGN.md §5 C14"),
  "C19": ("seq", "model_checking", "bounded-exhaustive enumeration of input strings (symbol words, token words with run-length macros, all 1-2 edits) and of all move strings per position",
-   "All strings of <= 5 symbols into the move/square parsers, all FEN board fields that are words of <= 5 (6) tokens including run-length macro tokens that overflow a byte-sized square cursor, valid boards crossed with field alphabets, every single (double) edit of 10 valid FENs, and all 28 672 coordinate strings per position through Engine.Move for ~500 positions: no panic, error or well-formed round-tripping value, accepted iff reference-legal, state snapshot unchanged on rejection (positions one move from a seed are set up by playing that move, so there is a history to lose); Reset with ~1500 undecodable FENs on engines that have a game leaves the game as it was.",
+   "All strings of <= 5 symbols into the move/square parsers, all FEN board fields that are words of <= 5 (6) tokens including run-length macro tokens that overflow a byte-sized square cursor, valid boards crossed with field alphabets, every single (double) edit of 10 valid FENs, and all 28 672 coordinate strings per position through Engine.Move for ~500 positions: no panic, error or well-formed round-tripping value, accepted iff reference-legal, state snapshot unchanged on rejection (positions one move from a seed are set up by playing that move, so there is a history to lose); Reset with ~1500 undecodable FENs on engines that have a game leaves the game as it was. Both FEN counters run over the boundaries of every integer width (a counter written as a plain decimal number is that number); late in a game (2..5 rounds of a shuffle) every legal move is still accepted.",
    "Bounded alphabets and lengths; arbitrary bytes beyond the alphabets are represented by NUL, a 2-byte and an Arabic-digit rune.", "DESIGN.md §5 C19"),
  "C20": ("seq", "model_checking", "exhaustive push-sequence walks with history + all K+X v K placements vs mirrored twin game and reference rules",
-   "Every node with its history: evaluations finite, colour-blind evaluations equal on a twin board built by playing the mirrored history from the mirrored start, plausible moves legal/unique/within limit/non-empty, no-under-promotion filter exact, considerable-move predicate equal to its four rules read on the reference model, and every entry of both opening books legal; through the public face: whatever Find returns on any position within 4-5 plies of the start, on the same placements with the other side to move, and (generic NewBook with e.p. lines) on every position reachable by any move order incl. single pawn steps, is legal there.",
+   "Every node with its history: evaluations finite, colour-blind evaluations equal on a twin board built by playing the mirrored history from the mirrored start, plausible moves legal/unique/within limit/non-empty, no-under-promotion filter exact, considerable-move predicate equal to its four rules read on the reference model, and every entry of both opening books legal; through the public face: whatever Find returns on any position within 4-5 plies of the start, on the same placements with the other side to move, and (generic NewBook with e.p. lines) on every position reachable by any move order incl. single pawn steps, is legal there. Families added for the evaluations: mobility extremes (a queen / rook / bishop on every square, every subset of its rays ending in a capture), the en-passant family, positions whose only legal move is an en-passant capture; the main-search filters are consulted with a cancelled context too.",
    "Bounded by walk depth (2-3 plies of history from ~50 seeds, deeper on fortresses).", "DESIGN.md §5 C20"),
 })
 
 CHECKS.update({
  "C03": ("seq", "model_checking", "exhaustive enumeration of (root, depth, configuration) cases vs unpruned reference negamax/quiescence",
-   "Full-window alpha-beta in 7 configurations (static leaf, captures-only quiescence, TUROCHAMP, SARGON, BERNSTEIN at three branch limits) is compared at every depth 0..D on a corpus of mate nets, endgames, tactical fragments and roots whose history makes draws occur inside the tree with an unpruned reference search that uses the reference rules, draw events and score order; the PV must be legal, within depth, non-empty when it must be, its first move must attain the value, and the board must come back unchanged. The draw roots come with equal and with unequal material; five capture-rich middlegames at depth <= 2-3 for the static configurations; searches limited to a variation (Context.Ponder = every legal first move) must return minus the reference value of that move's child.",
+   "Full-window alpha-beta in 7 configurations (static leaf, captures-only quiescence, TUROCHAMP, SARGON, BERNSTEIN at three branch limits) is compared at every depth 0..D on a corpus of mate nets, endgames, tactical fragments and roots whose history makes draws occur inside the tree with an unpruned reference search that uses the reference rules, draw events and score order; the PV must be legal, within depth, non-empty when it must be, its first move must attain the value, and the board must come back unchanged. The draw roots come with equal and with unequal material; five capture-rich middlegames at depth <= 2-3 for the static configurations; searches limited to a variation (Context.Ponder = every legal first move) must return minus the reference value of that move's child. Games with a history are searched again on boards whose hash table maps every position to 0, and with a transposition table that an earlier search of an earlier position of the same game has filled (a position drawn by the history counts as zero even when the table knows it).",
    "The reference search calls the implementation's evaluator and exploration predicate (that is what 'same leaf evaluation / same explored moves' means); bounded by corpus and depth; reference node budget reported if hit.", "DESIGN.md §5 C03"),
  "C11": ("seq", "model_checking", "exhaustive enumeration of search sequences sharing one table (incl. every move and reply between two iterative deepenings); every exact store and every exact entry held validated against the reference value",
    "For 17 roots x 2 position-determined configurations x 5 table sizes x 4 kinds of search sequence (iterative deepening, repeats, successive positions of a game, iterative deepening at successive positions) plus, for the low-branching roots, iterative deepening / EVERY move and EVERY reply / iterative deepening again: every search must return the table-less score and a PV starting with a best move, and every ExactBound store - mapped back to its position through the Exploration/QuietSearch seams - as well as every exact entry the table serves afterwards (swept by Read) must equal the value of that position at that depth. The same through the wrapper NewMinDepthTranspositionTable, with SARGON's nested-search plumbing over a material leaf, through the iterative-deepening driver (2270 positions analysed three times on one table, first move of every report valued) and through the engine (games played with and without a table, also as a new game right after a game on the same placement one or two half-moves from the fifty-move draw).",
    "Reference values are exhaustive minimax on fresh games, valid because the corpus excludes trees with repetition/fifty-move draws (as the property does); on the five capture-rich middlegame roots exhaustive minimax is out of reach and the value is what the search itself returns without a table.", "DESIGN.md §5 C11"),
  "C12": ("seq+mc", "fault_enumeration", "fault enumeration: the search is cancelled at every one of its N cancellation polls; plus stateless exploration of running searches halted by one or two callers at any instant",
-   "Every cancellation point of every case (alpha-beta with static leaf or quiescence on an empty or warmed table, Minimax, SARGON's nested search) is exercised: the search must report ErrHalted, return the board unchanged, leave only true exact entries in the table, and follow-up searches on the same table must return what they return on a table that never saw the halted search. Interleaving half: real Iterative.Launch goroutines with a table, a halter thread and (with a time control) the hard-limit timer as lazy or grid-released threads; at the moment a caller's Halt returns the board has its initial ply and hash and the wrapped table is never read or written again. Engine level: a first analysis ended by Halt / Move / TakeBack / Reset on five roots (incl. mated, stalemated, claimable draw); the next analysis must start and equal a fresh engine's.",
+   "Every cancellation point of every case (alpha-beta with static leaf or quiescence on an empty or warmed table, Minimax, SARGON's nested search) is exercised: the search must report ErrHalted, return the board unchanged, leave only true exact entries in the table, and follow-up searches on the same table must return what they return on a table that never saw the halted search. Interleaving half: real Iterative.Launch goroutines with a table, a halter thread and (with a time control) the hard-limit timer as lazy or grid-released threads; at the moment a caller's Halt returns the board has its initial ply and hash and the wrapped table is never read or written again. Engine level: a first analysis ended by Halt / Move / TakeBack / Reset on five roots (incl. mated, stalemated, claimable draw); the next analysis must start and equal a fresh engine's. A family of pawn endings at depth 2 with quiescence covers halts that land inside the quiescence search of a node's last and best move.",
    "Cancellation is observed only where the search polls its context; the poll count N is measured per case on the current tree.", "DESIGN.md §5 C12"),
  "C13": ("seq", "model_checking", "exhaustive enumeration of all windows over a score alphabet vs reference value",
-   "For every case of the search corpus (alpha-beta in 5 configurations at depth 0..D; the two quiescence searches called directly at every root and one ply below) ALL windows a<b over {lost, mated 1..7, the leaf values of the tree with their 1-ulp neighbours, mate 7..1, won} are searched and the result is checked against the clipping contract with the reference value, the stand-pat floor and exact rating of move-less positions.",
+   "For every case of the search corpus (alpha-beta in 5 configurations at depth 0..D; the two quiescence searches called directly at every root and one ply below) ALL windows a<b over {lost, mated 1..7, the leaf values of the tree with their 1-ulp neighbours, mate 7..1, won} are searched and the result is checked against the clipping contract with the reference value, the stand-pat floor and exact rating of move-less positions. Capture ladders provide one forced line of captures of every length up to ten plies.",
    "Bounded by corpus, depth and the window alphabet (thinned to <= 10 leaf values per tree).", "DESIGN.md §5 C13"),
 })
 
@@ -72,10 +72,10 @@ CHECKS.update({
    "searchctl.Iterative runs on the controlled scheduler with a consumer, a halter released at every step of a grid over the run, a consumer that halts on seeing depth D next to the hard-limit timer (grid and lazy), the hard-limit timer and environment answers for time.Since; every schedule within the bound is checked against direct fixed-depth searches (faithful, increasing, ends exactly when it must, Halt guarantees). TimeControl.Limits is enumerated over a complete grid; a free-running engine analyses a three-move root under a grid of time controls incl. clocks of zero and below, a two-minute watchdog turning a hang into a finding; scenarios whose table an earlier analysis of the same root has filled.",
    "Small roots only; the 'reported before the halt was requested' clause is evaluated on what the consumer had received; plain accesses of searchctl are clock-checked and racing sites, if any, become scheduling points and the scenarios that showed them are explored again race-directed with two more deviations (none on this tree).", "DESIGN.md §5 C15"),
  "C16": ("mc", "model_checking", "stateless exploration of all schedules within a deviation bound x enumerated injection instants, real goroutines on a controlled scheduler",
-   "GUI scripts `position; go X; <interrupting word>; isready; quit|EOF` over a 10-command alphabet (words of length <= 2) run against the real driver with the interrupting command released at every step of a grid over the uninterrupted run and, separately, as a lazy thread (any scheduling point for one deviation); every schedule within the deviation bound is executed and its event log checked: no panic, no deadlock, isready answered, no stale/duplicate/unsolicited bestmove (an answer for a go that had surely been superseded is one), clean shutdown. Also scripts without any position command, and scripts with the driver's buffered channels scaled down to two slots and a GUI that stops reading the output for a while (back-pressure must not become a deadlock).",
+   "GUI scripts `position; go X; <interrupting word>; isready; quit|EOF` over a 10-command alphabet (words of length <= 2) run against the real driver with the interrupting command released at every step of a grid over the uninterrupted run and, separately, as a lazy thread (any scheduling point for one deviation); every schedule within the deviation bound is executed and its event log checked: no panic, no deadlock, isready answered, no stale/duplicate/unsolicited bestmove (an answer for a go that had surely been superseded is one), clean shutdown. Also scripts without any position command, and scripts with the driver's buffered channels scaled down to two slots and a GUI that stops reading the output for a while (back-pressure must not become a deadlock). Checkmated and stalemated roots (the answer is the null move, the variation empty) are driven through the same interrupting words.",
    "K v K roots with the two colours to move so that a bestmove identifies its search; horizon-cut executions are inconclusive and counted; plain accesses of the driver packages are clock-checked and racing sites, if any, become scheduling points and the scenarios that showed them are explored again race-directed with two more deviations (none on this tree).", "DESIGN.md §5 C16"),
  "C17": ("mc", "model_checking", "stateless exploration of ALL interleavings of small table harnesses (no bound) with a brute-force linearizability check and vector-clock data-race detection over rewritten plain accesses",
-   "2-3 threads x 1-3 operations on colliding keys of 1-4-slot tables; every interleaving of the atomic steps (pointer load/CAS, counter update) is executed and checked: no two plain accesses to the same byte, one a store, left unordered by the happens-before relation of that interleaving (every field/element access of transposition.go is wrapped by the rewriter; vector clocks); hits return one single store's tuple, history linearizable w.r.t. the sequential table including the replacement rule, fill fraction exact at quiescence and within [0,1].",
+   "2-3 threads x 1-3 operations on colliding keys of 1-4-slot tables; every interleaving of the atomic steps (pointer load/CAS, counter update) is executed and checked: no two plain accesses to the same byte, one a store, left unordered by the happens-before relation of that interleaving (every field/element access of transposition.go is wrapped by the rewriter; vector clocks); hits return one single store's tuple, history linearizable w.r.t. the sequential table including the replacement rule, fill fraction exact at quiescence and within [0,1]. Further harnesses: stores of one key that differ only in the score, or only in the ply; a contended slot with an adversary thread whose ten stores happen all at once at instants the explorer chooses (every retry of a compare-and-swap loop can be made to fail).",
    "Sequentially consistent atomics (no weak-memory reordering beyond what a data race admits: races are decided per interleaving by the clocks; the free-running -race pass only cross-checks the shim).", "DESIGN.md §5 C17"),
 })
 
